@@ -82,6 +82,10 @@ PROPS["C13"] = {
         # heads across document removal / re-creation, reopen and the rebuild of the heads table by migration 001
         {"name": "docs", "cmd": "docs", "args": {"n": {"quick": 60, "thorough": 2000}},
          "trace_module": "DocsTrace", "trace_consts": dict(ENTRY, Prop='"C13"', PeerCap=5), "tv_timeout": 3000},
+        # heads across a crash: C06's crash images (age-based commit forced before every table access of every call), judged
+        # here only on "the heads found are the greatest timestamps of the records found"
+        {"name": "storetx-heads", "cmd": "storetx", "args": {"n": {"quick": 8, "thorough": 200}},
+         "trace_module": "StoreTxTrace", "trace_consts": dict(ENTRY, Prop='"C13"'), "tv_timeout": 3000, "timeout": 7200},
     ],
 }
 
@@ -291,7 +295,7 @@ PROPS["C16"] = {
                # table access of every successful remove_replica and the database file is copied right after the call; the
                # image must show the store wholly before or wholly after the removal (C06's machinery aimed at C16's clause)
                {"name": "storetx-remove", "cmd": "storetx", "args": {"n": {"quick": 40, "thorough": 1200}, "focus": 1},
-                "trace_module": "StoreTxTrace", "trace_consts": dict(ENTRY), "tv_timeout": 3000, "timeout": 7200},
+                "trace_module": "StoreTxTrace", "trace_consts": dict(ENTRY, Prop='"C16"'), "tv_timeout": 3000, "timeout": 7200},
                {"name": "protect", "cmd": "protect", "args": {"n": {"quick": 40, "thorough": 1500}},
                 "trace_module": "ProtectTrace", "trace_consts": {}, "tv_timeout": 1800}],
 }
@@ -302,7 +306,13 @@ PROPS["C17"] = {
     "assumptions": DOCS_ASSUME + ["two registrations never share a nanosecond (the harness sleeps 2 us between them)"],
     "models": [DOCS_Q, DOCS_PEERS],
     "sensitivity": [{"base": "docs-quick", "flip": {"PeerRefreshMoves": "FALSE"}}],
-    "drives": [docs_drive("C17", 80, 3000)],
+    "drives": [docs_drive("C17", 80, 3000),
+               # the list as the rest of the system sees it: registrations and reads through the real store actor, with
+               # documents dropped and re-created in between
+               {"name": "actor-peers", "cmd": "actor", "args": {"n": {"quick": 120, "thorough": 3000}},
+                "trace_module": "ActorTrace",
+                "trace_consts": dict(ENTRY, OpenCounts="TRUE", SyncSticky="TRUE", GateSync="TRUE", GateOpen="TRUE", Prop='"C17"'),
+                "tv_timeout": 3000}],
 }
 PROPS["C18"] = {
     "level": "model_checking",
@@ -395,7 +405,7 @@ PROPS["C10"] = {
 import re
 import vlib as _v
 LIVE_CONSTS = {"MaxDials": 3, "FixAbortLeak": "TRUE", "KeepResyncOnAccept": "TRUE", "SyncingChoices": "<- AnySyncing",
-               "DialReasons": "<- TwoReasons", "Yielder": 2, "MaxLeaves": 0, "JoinWaitsForQuiet": "TRUE"}
+               "DialReasons": "<- TwoReasons", "Yielder": 2, "MaxLeaves": 0, "JoinWaitsForQuiet": "TRUE", "OtherReasonsMayQueue": "FALSE"}
 _LIVE = {"yielder": 2}     # which node yields in a simultaneous dial, probed from the code before schedules are exported
 LIVE_INV = ["NoTwoSessions", "SlotFreed", "NoResyncLost", "SimulExactlyOne", "NotFoundWhenNotSyncing"]
 
@@ -479,7 +489,7 @@ PROPS["C11"] = {
         {"name": "livesync", "cmd": "livesync", "args": {}, "schedules_from": livesync_schedules,
          "trace_module": "LiveSyncTrace", "spec": "TSpec",
          "trace_consts": lambda: {"MaxDials": 1000, "FixAbortLeak": "TRUE", "KeepResyncOnAccept": "TRUE", "SyncingChoices": "{{}}",
-                                  "DialReasons": "{}", "Yielder": _LIVE["yielder"], "MaxLeaves": 1000, "JoinWaitsForQuiet": "TRUE"},
+                                  "DialReasons": "{}", "Yielder": _LIVE["yielder"], "MaxLeaves": 1000, "JoinWaitsForQuiet": "TRUE", "OtherReasonsMayQueue": "TRUE"},
          "trace_invariants": LIVE_INV, "tv_timeout": 3000, "timeout": 7200},
         # thorough: complete nodes on the loopback network, every call of the slot transition functions (hook H10) validated
         # against the node-local rules (LiveNodeTrace, extension X05).  The verdict does not depend on timing; if the local
@@ -512,7 +522,10 @@ PROPS["C06"] = {
                     {"base": "storetx", "flip": {"RemoveAtomic": "FALSE"}}],
     "drives": [
         {"name": "storetx", "cmd": "storetx", "args": {"n": {"quick": 14, "thorough": 400}},
-         "trace_module": "StoreTxTrace", "trace_consts": dict(ENTRY), "tv_timeout": 3000, "timeout": 7200},
+         "trace_module": "StoreTxTrace", "trace_consts": dict(ENTRY, Prop='"C06"'), "tv_timeout": 3000, "timeout": 7200},
+        # the same through the store actor (its idle-timer flush): writes, then idleness and / or flush_store in four shapes
+        {"name": "storetx-actor", "cmd": "storetx", "args": {"n": {"quick": 8, "thorough": 120}, "actor": 1},
+         "trace_module": "StoreTxTrace", "trace_consts": dict(ENTRY, Prop='"C06"'), "tv_timeout": 3000, "timeout": 7200},
     ],
 }
 
